@@ -43,6 +43,30 @@ func newIDs
   ensures forall k int :: !mapHasKey(ifptr(result, "*ids").values, k)
   modifies nothing
 
+// ======== auto heading ids (C15): a heading closed with AutoHeadingID carries an id attribute ========
+axiom idName: strkey(attrNameID) == strkey("id")
+// the id registry behind parser.Context: generating or recording an id touches only the registry's own state
+// (the in-repo implementation *ids is verified against exactly that frame: modifies mapcontents(s.values), fresh result)
+ghost var idsState() int
+iface parser.IDs.Generate
+  ensures len(result) > 0 && fresh(result)
+  modifies idsState
+iface parser.IDs.Put
+  modifies idsState
+iface parser.Context.IDs
+  ensures result != nil
+  modifies nothing
+func generateAutoHeadingID
+  uses idName
+  ensures [hasid] ast.hasAttrKey(node, strkey("id"))
+func (*atxHeadingParser).Close
+  uses idName, nodeModel
+  requires typeis(node, "*ast.Heading") && ifptr(node, "*ast.Heading") != nil
+  ensures [hasid] b.AutoHeadingID ==> ast.hasAttrKey(ifptr(node, "*ast.Heading"), strkey("id"))
+func (*setextHeadingParser).Close
+  uses idName, nodeModel
+  ensures [hasid] b.AutoHeadingID ==> ast.hasAttrKey(ifptr(node, "*ast.Heading"), strkey("id"))
+
 // ======== line discipline of the block parsers (C08) ========
 // "Open/Continue must not parse beyond the current line" (parser.go, BlockParser): every built-in Open and
 // Continue returns with the reader on the line it was called on, cursor model intact.
